@@ -181,7 +181,7 @@ def gap_spectrum(draw, n):
     else:
         # the iteration is scale free; a 1-in-5 share of far scales exposes absolute thresholds in the code
         mag = draw(st.integers(16, 159)) / 16.0 * 10.0 ** draw(
-            st.sampled_from([-3, -2, -1, 0, 0, 1, 2, -3, -2, -1, 0, 0, 1, 2, -12, -9, 8, 12]))
+            st.sampled_from([-3, -2, -1, 0, 0, 1, 2, -3, -2, -1, 0, 0, 1, 2, -12, -9, 8, 12, -100, 100]))
     lam1 = sign * mag
     if n == 1:
         return np.array([lam1]), {"gap": "n1", "rest": "none"}
@@ -279,7 +279,7 @@ def arbitrary_matrix(draw, nmax):
     A, _pat = draw(gen.qarray(n, n, draw(st.sampled_from(ARB_PATTERNS))))
     A = A.copy()
     if kind == "scaled":
-        A = A * 10.0 ** draw(st.sampled_from([-12, -9, -3, -2, -1, 1, 2, 3, 9, 12]))
+        A = A * 10.0 ** draw(st.sampled_from([-12, -9, -3, -2, -1, 1, 2, 3, 9, 12, -100, 100]))
     elif kind == "nilpotent":
         for i in range(n):
             A[i, : i + 1] = 0.0
